@@ -14,7 +14,7 @@
    a table shows up as a named slot (the harness then builds the boundary input
    for that slot and runs it on the real class).  Definitions only.           *)
 From Coq Require Import NArith ZArith List String Bool.
-From V Require Import Base.UString Base.Json Model.SchemaTypes Model.PyBase.
+From V Require Import Base.UString Base.Json Model.SchemaTypes Model.PyBase Spec.StixValid.
 Import ListNotations.
 
 Definition ver_eqb (a b : ver) : bool := match a, b with V20, V20 | V21, V21 => true | _, _ => false end.
@@ -156,7 +156,8 @@ Inductive failure :=
                                                     (C03: required by the library only) *)
 | FConstraint (cid : ustring) (i : nat)          (* i-th constraint of the reference side has no counterpart *)
 | FOpaque (cid : ustring)                        (* a constraint / __init__ the translator could not read *)
-| FRegistry (v : ver) (cat : nat).
+| FRegistry (v : ver) (cat : nat)
+| FSpecNames (v : ver).                           (* a registered type name of the specification is not a legal type name *)
 
 Definition find_slot (c : cls) (n : ustring) : option slot := find (fun s => ustr_eqb (sname s) n) (cslots c).
 
@@ -229,12 +230,20 @@ Definition registry_failures (v : ver) (a b : registry) : list failure :=
   (if pairs_eqb (rextensions a) (rextensions b) then [] else [FRegistry v 2]) ++
   (if pairs_eqb (rmarkings a) (rmarkings b) then [] else [FRegistry v 3]).
 
+(* the specification's own registries only name legal types *)
+Definition reg_names_ok (r : registry) : bool :=
+  forallb (fun kv => valid_type_name (fst kv)) (robjects r) && forallb (fun kv => valid_type_name (fst kv)) (robservables r).
+
+Definition spec_names_failures (sp : world) : list failure :=
+  (if reg_names_ok (wreg20 sp) then [] else [FSpecNames V20]) ++ (if reg_names_ok (wreg21 sp) then [] else [FSpecNames V21]).
+
 Definition refine_failures (w sp : world) : list failure :=
   flat_map (fun lc => match find_class (wclasses sp) (cid lc) with
                       | Some sc => class_refine_failures lc sc
                       | None => [FNoClass (cid lc)]
                       end) (wclasses w) ++
-  registry_failures V20 (wreg20 w) (wreg20 sp) ++ registry_failures V21 (wreg21 w) (wreg21 sp).
+  (registry_failures V20 (wreg20 w) (wreg20 sp) ++ registry_failures V21 (wreg21 w) (wreg21 sp)) ++
+  spec_names_failures sp.
 
 Definition accept_failures (sp w : world) : list failure :=
   flat_map (fun sc => match find_class (wclasses w) (cid sc) with
@@ -296,6 +305,7 @@ Definition show_failure (f : failure) : string :=
   | FConstraint c i => append "constraint|" (append (show_ustr c) (append "|" (show_nat i)))
   | FOpaque c => append "opaque|" (show_ustr c)
   | FRegistry v cat => append "registry|" (append (match v with V20 => "2.0" | V21 => "2.1" end) (append "|" (show_nat cat)))
+  | FSpecNames v => append "spec-names|" (match v with V20 => "2.0" | V21 => "2.1" end)
   end.
 
 Definition show_failures (l : list failure) : string :=
